@@ -328,6 +328,63 @@ class _Abort(Exception):
     """raised by the harness inside a with-block: the block must not write anything"""
 
 
+# ---- faults of caller-supplied objects (notes/SIZE_STRESS.md part 5): the one object a list view accepts from
+# the caller and CALLS is the formatter of value_formatter(f).  A faulting twin of the stock formatter raises
+# when it is called / at the k-th token it pulls / after the k-th piece it yields / at the very end.
+class _PrivateFault(Exception):
+    """an exception class the library has never heard of"""
+
+
+FAULT_EXC = [OSError, ValueError, KeyError, _PrivateFault, RuntimeError]
+FAULT_KINDS = ["call", "pull", "yield", "end"]
+_faults = []        # the exception objects the harness injected (identity decides, the class may be ValueError)
+
+
+def faulty_formatter(variant):
+    from debian._deb822_repro.formatter import one_value_per_line_trailing_separator as stock
+    kind = FAULT_KINDS[variant % len(FAULT_KINDS)]
+    k = [1, 2, 3, 5, 8, 10 ** 6][(variant // len(FAULT_KINDS)) % 6]        # 10**6: never reached -> behaves as the stock one
+    exc = FAULT_EXC[(variant // 3) % len(FAULT_EXC)]
+
+    def boom():
+        e = exc("injected fault of the caller's formatter")
+        del _faults[:-8]
+        _faults.append(e)
+        raise e
+
+    def pulled(token_iter):
+        for n, t in enumerate(token_iter, 1):
+            if kind == "pull" and n == k:
+                boom()
+            yield t
+
+    def fmt(name, sep_token, token_iter):
+        if kind == "call":
+            boom()
+
+        def gen():
+            n = 0
+            for piece in stock(name, sep_token, pulled(token_iter)):
+                n += 1
+                if kind == "yield" and n == k:
+                    boom()
+                yield piece
+            if kind == "end":
+                boom()
+        return gen()
+    return fmt
+
+
+def outcome_of(e):
+    """how a call / leaving a with-block ended: the harness' own fault ("Fault": the caller's exception object
+    itself must come out), ValueError, or another exception"""
+    if any(e is f for f in _faults):
+        return "Fault"
+    if isinstance(e, ValueError):
+        return "ValueError"
+    return "EXC:%s" % type(e).__name__
+
+
 def _with_statement(obj, box):
     try:
         with obj as lst:
@@ -338,10 +395,8 @@ def _with_statement(obj, box):
         box["res"] = "ok"
     except _Abort:
         box["res"] = "ok"
-    except ValueError:
-        box["res"] = "ValueError"
     except Exception as e:
-        box["res"] = "EXC:%s" % type(e).__name__
+        box["res"] = outcome_of(e)
     yield
 
 
@@ -373,10 +428,8 @@ class Block:
                 return "ok" if not self.obj.__exit__(_Abort, exc, None) else "EXC:swallowed"
             self.obj.__exit__(None, None, None)
             return "ok"
-        except ValueError:
-            return "ValueError"
         except Exception as e:
-            return "EXC:%s" % type(e).__name__
+            return outcome_of(e)
 
 
 def read_field(text, mode, field, want_list=True, keep=False, dups=False, variant=0):
@@ -443,6 +496,13 @@ def call(lst, op, v=None, w=None, i=0, variant=0, mode=None):
             lst.reformat_when_finished()
         elif op == "noreformat":
             lst.no_reformatting_when_finished()
+        elif op in ("vfmtx", "vfmtxf"):
+            if op == "vfmtx":
+                lst.value_formatter(faulty_formatter(variant))
+            elif variant % 2:
+                lst.value_formatter(faulty_formatter(variant), True)
+            else:
+                lst.value_formatter(faulty_formatter(variant), force_reformat=True)
         elif op in ("vfmt", "vfmtf"):
             from debian._deb822_repro.formatter import one_value_per_line_trailing_separator
             if op == "vfmt":
@@ -507,8 +567,14 @@ class Session:
             return ["<reading the view raised %s: %s>" % (type(e).__name__, str(e)[:80])]
 
     def enter(self):
-        obj = make_list(self.para, self.mode, self.field, self.idiom, self.keep)
-        self.block = Block(obj, (self.idiom // N_OPEN) % 2 == 1)
+        self.obj = make_list(self.para, self.mode, self.field, self.idiom, self.keep)
+        self.block = Block(self.obj, (self.idiom // N_OPEN) % 2 == 1)
+        self.lst = self.block.enter()
+        return self.lst
+
+    def reenter(self, idiom):
+        """the SAME list object is entered again (a re-usable context manager), by the other kind of block"""
+        self.block = Block(self.obj, (idiom // N_OPEN) % 2 == 1)
         self.lst = self.block.enter()
         return self.lst
 
@@ -678,6 +744,36 @@ CHECK_DEADLOCK FALSE
 """ % (maxw, maxt, maxc, "TRUE" if dups else "FALSE", edits, slice_k, slice_r)
 
 
+# ------------------------------------------------------------------ texts that are NOT a single item
+BAD_COUNTS = [2, 2, 2, 2, 3, 3, 4, 5, 6, 7, 9, 17, 33, 100]
+
+
+def bad_value(rng, mode, words):
+    """a text that by construction is not a single item of the interpretation: text after an inner separator (2 .. 100
+    items: the tokenizers look ahead), separators / blanks at either end, nothing at all, a bare newline, a second
+    line that is not a continuation line.  ListView!ARefuse: the call is refused and nothing changes."""
+    words = [x for x in words if x and not x.startswith("#") and x == x.strip() and "\n" not in x] or ["c", "d"]
+    if mode == "cm":
+        words = [x for x in words if "," not in x] or ["c", "d"]
+    else:
+        words = [x for x in words if not re.search(r"\s", x)] or ["c", "d"]
+    w = lambda: rng.choice(words)
+    n = rng.choice(BAD_COUNTS)
+    many = lambda sep: sep.join(w() for _ in range(n))
+    if mode == "cm":
+        inner = [lambda: many(", "), lambda: many(","), lambda: many(" , "), lambda: many(",\n "), lambda: w() + ",," + w(),
+                 lambda: w() + "\n ," + w(), lambda: many(", ") + ","]
+        edge = [lambda: w() + ",", lambda: ", " + w(), lambda: ",", lambda: "", lambda: " ", lambda: "\n", lambda: w() + "\n" + w(),
+                lambda: " " + w(), lambda: w() + " ", lambda: w() + "\n", lambda: "\t" + w(), lambda: "," * n,
+                lambda: w() + "\n# x, y\n"]
+    else:
+        inner = [lambda: many(" "), lambda: many("  "), lambda: many("\t"), lambda: many("\n "), lambda: w() + "\n#x\n " + w(),
+                 lambda: w() + ", " + w()]
+        edge = [lambda: " " + w(), lambda: w() + " ", lambda: "", lambda: " ", lambda: "\n", lambda: w() + "\n" + w(), lambda: w() + "\n",
+                lambda: "\t" + w()]
+    return rng.choice(inner if rng.random() < 0.7 else edge)()
+
+
 # ------------------------------------------------------------------ (b) recording executions
 
 def can_follow(mode, p2, p, has_c, first, t):
@@ -844,22 +940,49 @@ def record_trace(rng, mode, nwords, nsessions, nops, script=None, lay=None, forc
 
     text = conc.document()
     events, script_out = [], []
+    unspecified = []
+    stop = False
     doc_names = read_field(text, mode, conc.field)[1]
     cur = text
+    s = None
+    snaps = []                # what the CURRENT list object showed when it was made and each time it was left
+    faulted = False
     for sn in range(nsessions if sessions is None else len(sessions)):
-        try:
-            s = Session(cur, mode, conc.field, rng.randrange(56) if sessions is None else sessions[sn]["idiom"], keep)
-            cur_s[0] = s
-            opened = s.open_values()
-            lst = s.enter()
-        except Exception as e:
-            events.append({"op": "open", "v": [], "w": [], "i": 0, "res": "EXC:%s" % type(e).__name__, "obs": [], "doc": "ok"})
-            break
-        events.append({"op": "open", "v": [], "w": [], "i": 0, "res": "ok", "obs": [code_of(x) for x in opened], "doc": "ok"})
-        calls = []
         plan = sessions[sn]["calls"] if sessions is not None else None
         force = forced[sn] if (forced and sn < len(forced) and plan is None) else None
+        # the SAME list object is entered again (a view is a re-usable context manager) -- after a refused or
+        # faulted write-back nearly always: the history carries on where the failure left the object
+        if sessions is not None:
+            reuse = bool(sessions[sn].get("reenter"))
+        else:
+            reuse = s is not None and force is None and rng.random() < (0.85 if faulted else 0.4)
+        idiom = rng.randrange(56) if sessions is None else sessions[sn]["idiom"]
+        undo = None
+        try:
+            if reuse:
+                lst = s.reenter(idiom)
+                s.idiom = idiom
+                opened = s.show()
+                last_obs[0] = opened
+            else:
+                s = Session(cur, mode, conc.field, idiom, keep)
+                cur_s[0] = s
+                opened = s.open_values()
+                lst = s.enter()
+                snaps = [list(opened)]
+                last_obs[0] = opened
+        except Exception as e:
+            events.append({"op": "reenter" if reuse else "open", "v": [], "w": [], "i": 0, "res": "EXC:%s" % type(e).__name__, "obs": [], "doc": "ok"})
+            break
+        events.append({"op": "reenter" if reuse else "open", "v": [], "w": [], "i": 0, "res": "ok", "obs": [code_of(x) for x in opened], "doc": "ok"})
+        calls = []
         n = (len(force) if force is not None else rng.randint(0, nops)) if plan is None else len(plan)
+        if reuse and plan is None and rng.random() < 0.7:
+            # a round whose edits CANCEL earlier rounds: back to a content this object held before
+            older = [x for x in snaps if x != opened]
+            if older:
+                undo = rng.choice(older[:1] * 3 + older)
+                n = len(undo) + len(opened) + 2
         k = 0
         now = opened          # what the last read showed (no extra read: reading primes caches of the code)
         while k < n:
@@ -867,15 +990,29 @@ def record_trace(rng, mode, nwords, nsessions, nops, script=None, lay=None, forc
                 now = last_obs[0]
             if plan is not None:
                 c = plan[k]
+            elif undo is not None:
+                c = undo_step(rng, now, undo)
+                if c is None:
+                    break
             else:
                 op = rng.choice(["append"] * 4 + ["remove"] * 3 + ["replace"] * 2 + ["refset", "refremove", "refremove",
-                                "nl", "cmt", "reformat", "refpass", "noreformat", "vfmt", "vfmtf"]
+                                "nl", "cmt", "reformat", "refpass", "noreformat", "vfmt", "vfmtf", "vfmtx", "vfmtxf"]
                                + (["sep", "sep0"] if mode == "cm" else []))
                 where = None
                 if force is not None:
                     op, _, where = force[k].partition("@")
-                c = {"op": op, "v": None, "w": None, "i": 0, "var": rng.randrange(6)}
-                if op == "append":
+                c = {"op": op, "v": None, "w": None, "i": 0, "var": rng.randrange(120)}
+                if force is None and op in ("append", "replace", "refset") and rng.random() < 0.22 and (now or op == "append"):
+                    # the same call with a text that is not a single item: refused (ListView!ARefuse), then carry on
+                    c["bad"] = True
+                    bad = bad_value(rng, mode, list(now) + [x for x in conc.word.values()])
+                    if op == "append":
+                        c["v"] = bad
+                    elif op == "replace":
+                        c["v"], c["w"] = rng.choice(now), bad
+                    else:
+                        c["i"], c["w"] = rng.randint(1, len(now)), bad
+                elif op == "append":
                     c["v"] = new_value(0.9 if force is not None else 0.6)
                 elif op in ("remove", "replace") and where and now:
                     c["v"] = now[{"first": 0, "last": -1, "mid": len(now) // 2}[where]]
@@ -896,7 +1033,8 @@ def record_trace(rng, mode, nwords, nsessions, nops, script=None, lay=None, forc
                     c["plan"] = [rng.choice(["keep", "keep", "set", "remove"]) for _ in now]
                     c["ws"] = [new_value() for _ in now]
             calls.append(c)
-            for x in [c.get("v"), c.get("w")] + list(c.get("ws") or []):
+            isbad = bool(c.get("bad"))
+            for x in ([c.get("v")] if isbad and c["op"] != "append" else [] if isbad else [c.get("v"), c.get("w")]) + list(c.get("ws") or []):
                 reg(x)
             if c["op"] == "refpass":
                 # the documented streaming idiom: one pass over iter_value_references()
@@ -921,14 +1059,34 @@ def record_trace(rng, mode, nwords, nsessions, nops, script=None, lay=None, forc
                     events.append({"op": "refset", "v": [], "w": [], "i": idx, "res": "EXC:%s" % type(e).__name__,
                                    "obs": [], "doc": "ok"})
             else:
-                r = call(lst, c["op"], c["v"], c["w"], c["i"], c.get("var", 0), mode)
+                r = call(lst, c["op"], c["v"], c["w"], c["i"], c.get("var", 0), mode if not isbad else None)
                 newv = c["v"] if c["op"] == "append" else c["w"]
-                events.append({"op": c["op"], "v": code_of(c["v"]) if c["v"] is not None else [],
-                               "w": code_of(c["w"]) if c["w"] is not None else [], "i": c["i"], "res": r,
+                if isbad and r == "ok":
+                    # a text that is not a single item was ACCEPTED: what the list then is, is unspecified -- the
+                    # execution ends here and is validated up to the call before
+                    unspecified.append("%s(%r) accepted on a %s list" % (c["op"], newv, mode))
+                    calls.pop()
+                    stop = True
+                    break
+                events.append({"op": c["op"], "v": code_of(c["v"]) if (c["v"] is not None and not (isbad and c["op"] == "append")) else [],
+                               "w": code_of(c["w"]) if (c["w"] is not None and not isbad) else [], "i": c["i"], "res": r,
+                               "bad": isbad,
                                "hash": bool(newv) and newv.startswith("#"), "obs": observe(lst), "doc": "ok"})
             k += 1
+        if stop:
+            try:
+                s.leave(True)
+            except Exception:
+                pass
+            script_out.append({"idiom": s.idiom, "calls": calls, "abort": True, "reenter": bool(reuse), "cut": True})
+            break
+        if sessions is not None and sessions[sn].get("cut"):
+            break
         ab = (rng.random() < 0.12 and force is None) if sessions is None else bool(sessions[sn].get("abort"))
         r = s.leave(ab)
+        faulted = r != "ok"
+        if not ab:
+            snaps.append(list(last_obs[0]))
         after = s.dump()
         got, names = read_field(after, mode, conc.field, keep=keep, variant=s.idiom + sn)
         readable = "ok"
@@ -943,20 +1101,41 @@ def record_trace(rng, mode, nwords, nsessions, nops, script=None, lay=None, forc
             doc = names
         elif names != doc_names:
             doc = "field names %r -> %r" % (doc_names, names)
-        elif r == "ValueError" and after != cur:
-            doc = "ValueError on leaving but the document changed"
+        elif r != "ok" and after != cur:
+            doc = "%s on leaving but the document changed" % r
         elif ab and after != cur:
             doc = "the block was left by an exception but the document changed"
-        elif not calls and after != cur:
+        elif not calls and not reuse and after != cur:      # (an object entered AGAIN may still have edits to write)
             doc = "open+close without change altered the document"
         events.append({"op": "abort" if ab else "close", "v": [], "w": [], "i": 0, "res": r, "read": readable,
                        "obs": [code_of(x) for x in got] if got is not None else [], "doc": doc})
-        script_out.append({"idiom": s.idiom, "calls": calls, "abort": ab})
+        script_out.append({"idiom": s.idiom, "calls": calls, "abort": ab, "reenter": bool(reuse)})
         if doc != "ok" or readable != "ok":
             break
         cur = after
-    return {"mode": mode, "keep": bool(keep), "lay": lay, "events": events,
+    return {"mode": mode, "keep": bool(keep), "lay": lay, "events": events, "unspecified": unspecified,
             "script": {"conc": conc.to_json(), "sessions": script_out, "keep": bool(keep)}, "text": text, "final": cur}
+
+
+def undo_step(rng, now, target):
+    """the next call that brings the list `now` one step closer to `target` (a content the object held before),
+    or None when it is there / the step would hand in a value that begins with '#' (unspecified)"""
+    for i in range(min(len(now), len(target))):
+        if now[i] != target[i]:
+            if target[i].startswith("#"):
+                return None
+            if now.index(now[i]) == i and rng.random() < 0.5:
+                return {"op": "replace", "v": now[i], "w": target[i], "i": 0, "var": rng.randrange(120)}
+            return {"op": "refset", "v": None, "w": target[i], "i": i + 1, "var": rng.randrange(120)}
+    if len(now) > len(target):
+        if now.index(now[-1]) == len(now) - 1 and rng.random() < 0.5:
+            return {"op": "remove", "v": now[-1], "w": None, "i": 0, "var": rng.randrange(120)}
+        return {"op": "refremove", "v": None, "w": None, "i": len(now), "var": rng.randrange(120)}
+    if len(now) < len(target):
+        if target[len(now)].startswith("#"):
+            return None
+        return {"op": "append", "v": target[len(now)], "w": None, "i": 0, "var": rng.randrange(120)}
+    return None
 
 
 def corrupt(t, how):
@@ -984,7 +1163,7 @@ def corrupt(t, how):
 
 def tlc_trace(t):
     return {"mode": t["mode"], "keep": bool(t.get("keep")), "lay": t["lay"],
-            "events": [dict(e, hash=bool(e.get("hash"))) for e in t["events"]]}
+            "events": [dict(e, hash=bool(e.get("hash")), bad=bool(e.get("bad"))) for e in t["events"]]}
 
 
 def validate(ctx, traces, with_controls=True):
